@@ -313,7 +313,13 @@ def one_map(run, seed, idx, mods, tmap):
         bound[i] = 2.0 * np.linalg.norm(Rr.T @ Uqr - np.eye(3), 2) * np.linalg.norm(Ecl_c[i], 2) * 1.01 + 1e-10
     ubimapB = ubisB.reshape(shp + (3, 3)).copy()
     ubimapB.reshape(n, 3, 3)[mask] = np.nan
-    phase_ids = np.where(nophase, -1, phase).reshape(shp)
+    # phase ids are dictionary KEYS: any integers, registered in any order (ids 0,1 in order; the same registered the
+    # other way round; ids that are not 0..n-1)
+    lay = int(rng(seed, "C10", "phase-keys", idx).integers(4))
+    pkeys = [(0, 1), (0, 1), (2, 5), (1, 0)][lay]
+    phases_dict = {pkeys[1]: ucs[1], pkeys[0]: ucs[0]} if lay in (1, 2) else {pkeys[0]: ucs[0], pkeys[1]: ucs[1]}
+    run.count("tensormap_phase_key_layout:%s" % ["0,1", "0,1-registered-in-reverse", "2,5-registered-in-reverse", "1,0"][lay])
+    phase_ids = np.where(nophase, -1, np.asarray(pkeys)[phase]).reshape(shp)
     okB = ok & ~nophase
     run.count("tensormap_voxels_phase0", int((okB & (phase == 0)).sum()))
     run.count("tensormap_voxels_phase1", int((okB & (phase == 1)).sum()))
@@ -324,7 +330,7 @@ def one_map(run, seed, idx, mods, tmap):
         wantsB[i] = g.eps_sample_matrix(cells[phase[i]], 0.5)
         wantcB[i] = g.eps_grain_matrix(cells[phase[i]], 0.5)
     for order in ("sample-first", "crystal-first"):
-        tm = tmap.TensorMap(maps={"UBI": ubimapB.copy(), "phase_ids": phase_ids.copy()}, phases={0: ucs[0], 1: ucs[1]})
+        tm = tmap.TensorMap(maps={"UBI": ubimapB.copy(), "phase_ids": phase_ids.copy()}, phases=dict(phases_dict))
         with contextlib.redirect_stdout(io.StringIO()):
             if order == "sample-first":
                 a = tm.eps_sample
